@@ -177,30 +177,30 @@ Section Readers.
         else Ok (Got body st inb2)
     end.
 
-  Inductive action := ANone | AClose.
+  Inductive gaction := GaNone | GaClose.
 
-  (* OnTraffic: frames handed to the handler, connCtx after, octets left buffered, returned action *)
+  (* OnTraffic: frames handed to the handler, connCtx after, octets left buffered, returned gaction *)
   Fixpoint on_traffic (fuel : nat) (st : gstate) (inb : list N)
-    : res (list (list N) * gstate * list N * action) :=
+    : res (list (list N) * gstate * list N * gaction) :=
     match fuel with
     | 0 => OutOfFuel
     | S f =>
       do r <- g_iter st inb;
       match r with
-      | Wait st' inb' => Ok ([], st', inb', ANone)
+      | Wait st' inb' => Ok ([], st', inb', GaNone)
       | Got m st' inb' =>
         if ok m then
           if 0 <? length inb'                          (* if c.InboundBuffered() > 0 { goto read } *)
           then do (fs, st2, inb2, a) <- on_traffic f st' inb'; Ok (m :: fs, st2, inb2, a)
-          else Ok ([m], st', inb', ANone)
-        else Ok ([], st', inb', AClose)                (* invalid msg: return gnet.Close *)
+          else Ok ([m], st', inb', GaNone)
+        else Ok ([], st', inb', GaClose)                (* invalid msg: return gnet.Close *)
       end
     end.
 
   (* one read event per non-empty segment.  Result: frames, final status, and the trace
      (connCtx, octets left buffered, frames handed over by this event) after every event — the trace is what the
      deterministic correspondence kind compares with the real connCtx *)
-  Definition gtrace := list (gstate * nat * nat * action).
+  Definition gtrace := list (gstate * nat * nat * gaction).
 
   Fixpoint gnet_feed (st : gstate) (inb : list N) (segs : list (list N))
     : res (list (list N) * status * gtrace) :=
@@ -213,8 +213,8 @@ Section Readers.
         let inb1 := inb ++ s in
         do (fs, st', inb', a) <- on_traffic (S (length inb1)) st inb1;
         match a with
-        | AClose => Ok (fs, Closed, [(st', length inb', length fs, a)])
-        | ANone => do (fs2, stt, tr) <- gnet_feed st' inb' r;
+        | GaClose => Ok (fs, Closed, [(st', length inb', length fs, a)])
+        | GaNone => do (fs2, stt, tr) <- gnet_feed st' inb' r;
                    Ok (fs ++ fs2, stt, (st', length inb', length fs, a) :: tr)
         end
       end
